@@ -11,9 +11,10 @@ import Driver.OpsCurv
 import Driver.OpsLevel
 import Driver.OpsFlow
 import Driver.OpsIO
+import Driver.OpsFs
 open LapyVerif.Driver
 
-def allOps : List (String × P String) := femOps ++ diffGeoOps ++ topoOps ++ meshOps ++ solveOps ++ heatOps ++ historyOps ++ ctorOps ++ transferOps ++ spectralOps ++ curvOps ++ levelOps ++ flowOps ++ ioOps
+def allOps : List (String × P String) := femOps ++ diffGeoOps ++ topoOps ++ meshOps ++ solveOps ++ heatOps ++ historyOps ++ ctorOps ++ transferOps ++ spectralOps ++ curvOps ++ levelOps ++ flowOps ++ ioOps ++ fsOps
 
 def handle (line : String) : String :=
   let toks := ((line.trimAscii.toString.splitOn " ").filter (· ≠ "")).toArray
